@@ -757,9 +757,12 @@ def grid_cases(limit=None):
           "default": None, "defer": False, "no_input": False, "no_output": False, "mode": None, "deps": ["a"],
           "on_error": None}
     datas = [[], [["a", 1]], [["a1", "1"], ["b", 2]], [["A", 1], ["a", 2]], [["a", 0], ["a1", 0], ["b", 1]],
-             [["Ax", "x"], ["zz", 1]], [["a1", 1], ["a", "1"], ["b", 1]], [["AX", 1], ["ax", 1]]]
+             [["Ax", "x"], ["zz", 1]], [["a1", 1], ["a", "1"], ["b", 1]], [["AX", 1], ["ax", 1]],
+             [["b", 1]], [["A1", 2], ["a1", 2], ["zz", "x"]], [["a", "x"], ["b", "x"]], [["Ax", 0], ["a", 1], ["b", 3]]]
     optss = [{}, {"mode": "w"}, {"mode": "r", "ignore_required": True}, {"ignore_alias_conflicts": True},
-             {"collect_errors": True, "addition": False}, {"force_default": {"v": 9}}, {"addition": True, "mode": "w"}]
+             {"collect_errors": True, "addition": False}, {"force_default": {"v": 9}}, {"addition": True, "mode": "w"},
+             {"invalid_values": "exclude", "collect_errors": True}, {"no_default": True, "mode": "a"},
+             {"defer_default": True, "invalid_values": "preserve", "max_params": 2}]
     for f1 in f1s:
         for d in datas:
             for o in optss:
@@ -795,8 +798,8 @@ class C05(Check):
         "them with tables measured on the real converters in isolation",
         "property fields (@property), inherited fields, Final, discriminator and function parameters are outside the modelled fragment",
     ]
-    budget = {"quick": 2500, "thorough": 40000}
-    search_budget = {"quick": 3000, "thorough": 20000}
+    budget = {"quick": 6000, "thorough": 120000}
+    search_budget = {"quick": 4000, "thorough": 20000}
     legacy = None
 
     # -- generation
@@ -870,7 +873,11 @@ class C05(Check):
                 la = {keys[k]: v for k, v in sp["attrs"]}
                 if lm != want["mapping"] or la != want["attrs"]:
                     return f"HARNESS: python oracle views {want['mapping']}/{want['attrs']} != lean spec views {lm}/{la}"
-        return judge(io["out"], want)
+        for k, what in (("out", "as declared"), ("df", "data_first_search=True"), ("ff", "data_first_search=False")):
+            why = judge(io[k], want, what)
+            if why:
+                return why
+        return None
 
     def classify(self, case, io, why):
         return None
@@ -949,7 +956,7 @@ class C05(Check):
         ev["coverage"]["exhaustive"] = False
         if tier == "thorough":
             ev["coverage"]["exhaustive_part"] = ("full product of a reduced grid: field a (alias x case_insensitive x required x "
-                                                 "default x no_input x no_output x mode) + dependent field b, 8 inputs, 7 option sets, "
+                                                 "default x no_input x no_output x mode) + dependent field b, 12 inputs, 10 option sets, "
                                                  "both strategies")
 
 
